@@ -601,9 +601,12 @@ def run_writes(run, rng, quick, idx0):
         rng.shuffle(blocks)
         for blk in blocks[:25 if quick else 90]:
             r0, c0, rl, cl = blk
+            # (the fourth: a window of the block's own size that starts inside the block and ends beyond it - the block holds its
+            # top-left corner but not all of it: to be refused, never stretched over the window)
             wins = [None, (r0, r0 + rl, c0, c0 + cl), (r0 - 1, r0 + rl + 1, c0 - 1, c0 + cl + 1),
+                    (r0 + 1, r0 + rl + 1, c0 + 1, c0 + cl + 1),
                     (r0 + 1, r0 + rl, c0, c0 + max(cl - 1, 0)), (0, n, 0, m), (-3, -1, 0, m), (n, n + 2, 0, 1)]
-            for w in wins[:4 if quick else 7]:
+            for w in wins[:5 if quick else 8]:
                 combos.append((n, m, blk, w))
     with rio.Env(GDAL_TIFF_INTERNAL_MASK=True, GTIFF_FORCE_RGBA=False):
         for (n, m, blk, w) in combos:
@@ -653,7 +656,11 @@ def run_writes(run, rng, quick, idx0):
                         inwin = ww[0] <= r < ww[1] and ww[2] <= c < ww[3]
                         exp = -1 if not inwin else (r - r0) * 8 + (c - c0) + 1
                         if inwin and not (0 <= r - r0 < rl and 0 <= c - c0 < cl):
-                            continue  # the block does not hold this pixel: the model decides (error expected)
+                            # the block does not hold this pixel (the model expects a refusal): whatever the call does, it has
+                            # no value to put there
+                            if back[r, c] != -1:
+                                bad = (r, c, float(back[r, c]), 'nothing: the block does not hold this pixel')
+                            continue
                         if back[r, c] != exp:
                             bad = (r, c, float(back[r, c]), exp)
                 if bad:
